@@ -39,7 +39,7 @@ func WithForm(p *e1.Program, form int) *e1.Program {
 	case 2:
 		text = pre + "type §recv struct{ k int }\n\nfunc (r *§recv) gen() ITER[int] GEN[int]{\n" + body + "}GEN\n" + strings.Replace(post, stdCall, "it := (&§recv{k: 1}).gen(); return it", 1)
 	case 3:
-		text = pre + "func §gen[T any]() ITER[int] GEN[int]{\n" + body + "}GEN\n" + strings.Replace(post, stdCall, "it := §gen[string](); return it", 1)
+		text = pre + "func §gen[GT9 any]() ITER[int] GEN[int]{\n" + body + "}GEN\n" + strings.Replace(post, stdCall, "it := §gen[string](); return it", 1)
 	case 4:
 		text = pre + "var §gen = func() ITER[int] GEN[int]{\n" + body + "}GEN\n" + post
 	case 5:
